@@ -45,7 +45,7 @@ class C04(Property):
             "at L/2 and L/2±1, ends equal to L; non-trivial = locations neither identical nor far apart (distance < L/4) or "
             "an origin-spanning operand/result; distinct by canonical input")
     TRUSTED = ["Biopython CompoundLocation.start/end/strand/__len__, `int in SimpleLocation`, str(location)",
-               "fuzzy positions (<5, >9, UnknownPosition) and mixed-strand compounds are outside the modelled domain; the operator (join/order) is modelled for the textual form only",
+               "UnknownPosition and mixed-strand compounds are outside the modelled domain (fuzzy positions <5 / >9 are modelled for the textual form: op fstring); the operator (join/order) is modelled for the textual form only",
                "offset_location called with wrap_point=0 explicitly (conflated with None) is not generated"]
 
     # ------------------------------------------------------------------ generators
@@ -116,6 +116,12 @@ class C04(Property):
         for _ in range(2000 if deep else 300):
             n = self.boundary_len(rng)
             yield {"f": "string", "a": self.rand_loc(rng, n, rng.random() < 0.5), "op": rng.choice(["join", "join", "order"])}
+        # textual form with fuzzy positions: every class at a start and at an end (also the unusual way round)
+        for _ in range(2000 if deep else 400):
+            n = self.boundary_len(rng)
+            a = self.rand_loc(rng, n, rng.random() < 0.5)
+            fz = [[rng.choice([0, 0, 1, 2]), rng.choice([0, 0, 1, 2])] for _ in a["parts"]]
+            yield {"f": "fstring", "a": a, "fz": fz, "op": rng.choice(["join", "join", "order"])}
 
     def random_case(self, rng: random.Random) -> Dict[str, Any]:
         n = self.boundary_len(rng)
@@ -244,6 +250,10 @@ class C04(Property):
             yield {"f": "string", "a": a}
             if a["c"]:
                 yield {"f": "string", "a": a, "op": "order"}
+            if n <= 3:
+                for klo in (0, 1, 2):
+                    for khi in (0, 1, 2):
+                        yield {"f": "fstring", "a": a, "fz": [[klo, khi]] + [[khi, klo]] * (len(a["parts"]) - 1)}
             for k in range(-n, n + 1):
                 yield {"f": "offset", "a": a, "k": k, "wrap": n}
             for d in range(0, n + 2):
@@ -323,6 +333,17 @@ class C04(Property):
                 back = loc.location_from_string(text)
                 return {"v": text, "back": common.location_json(back), "back_op": getattr(back, "operator", None),
                         "equal": bool(back == a)}
+            if f == "fstring":
+                from Bio.SeqFeature import AfterPosition, BeforePosition, ExactPosition, FeatureLocation
+                classes = [ExactPosition, BeforePosition, AfterPosition]
+                parts = [FeatureLocation(classes[k[0]](int(part.start)), classes[k[1]](int(part.end)), part.strand)
+                         for part, k in zip(a.parts, case["fz"])]
+                fuzzy = loc.CompoundLocation(parts, operator=case.get("op", "join")) if case["a"]["c"] else parts[0]
+                text = str(fuzzy)
+                back = loc.location_from_string(text)
+                kinds = [[classes.index(type(q.start)), classes.index(type(q.end))] for q in back.parts]
+                return {"v": text, "back": common.location_json(back), "back_op": getattr(back, "operator", None),
+                        "back_kinds": kinds}
         except Exception as exc:  # pylint: disable=broad-except
             return {"err": err_kind(exc), "msg": str(exc)[:200]}
         raise ValueError(f)
@@ -369,6 +390,9 @@ class C04(Property):
             corr = kind == "ok" and mval == obs["v"]
             if f == "string":
                 corr = corr and drv.get("back") == obs["back"] and drv.get("back_op") == obs["back_op"]
+            if f == "fstring":
+                corr = (corr and drv.get("back") == obs["back"] and drv.get("back_op") == obs["back_op"]
+                        and drv.get("back_kinds") == obs["back_kinds"])
         detail = "" if corr else f"model {drv['model']} vs implementation {obs}"
         # ---- spec on the implementation's output
         spec_ok = True
@@ -428,13 +452,18 @@ class C04(Property):
                 spec_ok = (obs["back"] == case["a"] and obs["equal"]
                            and obs["back_op"] == (case.get("op", "join") if case["a"]["c"] else None))
                 nontrivial = True
+            elif f == "fstring":
+                # reads back to the same location: same coordinates and strands, every position of the class it was written with
+                spec_ok = (obs["back"] == case["a"] and obs["back_kinds"] == [list(k) for k in case["fz"]]
+                           and obs["back_op"] == (case.get("op", "join") if case["a"]["c"] else None))
+                nontrivial = any(k != [0, 0] for k in case["fz"])
             else:
                 nontrivial = True
             if not spec_ok and not detail:
                 detail = f"set-of-bases spec fails: implementation {obs}, spec data { {k: drv[k] for k in drv if k not in ('model', 'id')} }"
             elif not spec_ok:
                 detail = "set-of-bases spec fails; " + detail
-        elif scope and "err" in obs and f in ("distance", "overlap", "contains", "offset", "extend", "string"):
+        elif scope and "err" in obs and f in ("distance", "overlap", "contains", "offset", "extend", "string", "fstring"):
             # these are total on well-formed inputs
             if not (f == "offset" and not case["wrap"]):     # linear offsets may legitimately leave the record
                 spec_ok = False
